@@ -72,9 +72,11 @@ def make_decls(cases, rng, q):
                         from . import render_value
                         render_value.FLOAT_LITS[(ty, b)] = text
                         n += 1
+                        cells = [("below", f_neighbour(ty, b, False)), ("at", b), ("above", f_neighbour(ty, b, True))]
+                        if x == 0.0:
+                            cells.append(("at", f_bits(ty, -0.0)))       # -0.0 == 0.0: the other zero is AT the bound too
                         decls.append({"id": "m%04d" % n, "fam": "float", "ty": ty, "san": [], "vmode": "std",
-                                      "val": [rule(kind, b, sp)], "traits": TRAITS_NUM, "dflt": [],
-                                      "cells": [("below", f_neighbour(ty, b, False)), ("at", b), ("above", f_neighbour(ty, b, True))]})
+                                      "val": [rule(kind, b, sp)], "traits": TRAITS_NUM, "dflt": [], "cells": cells})
         else:
             for b in (1, 3, 10):
                 for sp in ("lit", "expr"):
@@ -124,7 +126,7 @@ def check_C16():
         cells = [(c, v) for (c, v) in d["cells"] if not (lo_hi and not (lo_hi[0] <= v <= lo_hi[1]))]
         ins = [VL.enc_value(d, v) for (_c, v) in cells]
         rows = [{"d": d["id"], "ep": "msgs", "ins": [None]}, {"d": d["id"], "ep": "try_new", "ins": ins}]
-        rows.append({"d": d["id"], "ep": "deser", "ins": [{"fmt": "json", "pos": "top", "val": v} for v in ins]})
+        rows.append({"d": d["id"], "ep": "deser", "ins": [{"fmt": fmt, "pos": "top", "val": v} for fmt in ("json", "ron", "msgpack") for v in ins]})
         return rows
     obs, rejected, alive = CV.build_and_run("c16", decls, rows_of, ["serde"], ["serde"], nshards=4)
     if len(rejected) > len(decls) // 2:
@@ -147,9 +149,9 @@ def check_C16():
             embeds = []
             if m["parse_msg"]:
                 embeds.append(text in m["parse_msg"])
-            for i, (_c, _v) in enumerate(cells):
+            for i in range(len(eps["deser"])):      # every format x cell
                 out = eps["deser"][i][1]
-                if out.get("k") != "ok":
+                if out.get("k") not in ("ok", "skip"):
                     embeds.append(text in out.get("m", ""))
             bd = m["bound_dbg"]
             names_bound = re.search(r"(?<![\w.\-])" + re.escape(bd) + r"(?![\w])", text) is not None
